@@ -236,6 +236,11 @@ fn fs_entry_point(sc: &SinkSc, g: Gen, bin: &str, reference: &[u8], log: &mut Lo
                 if v.is_none() && distinct {
                     for (n, level) in &levels {
                         let text = String::from_utf8_lossy(&std::fs::read(dir.join(format!("{n}.1"))).unwrap_or_default()).to_string();
+                        // a page replaces whatever the file held before
+                        if sc.fs == 4 && text.contains("xxxxxxxxxxxxxxxxxxxxxxxx") {
+                            v = Some(("nondeterministic-output", "man/generate_to/stale-tail".to_string(), format!("page `{n}.1` still ends with the content the file had before clap_mangen::generate_to wrote it ({} bytes in all)", text.len())));
+                            break;
+                        }
                         // the page of a level names everything visible at that level (help subcommand disabled by
                         // generate_to itself) and stays inside the generator's request vocabulary
                         if let Some((clause, site, d)) = man_checks(level, &[], &text) {
@@ -1261,6 +1266,44 @@ fn exec_sink(which: Which, sc: &SinkSc, log: &mut Log, out: &mut Outcome) {
                 GenOut::Panic(p, _) => {
                     out.violate("generate-panic", "man/late-subcommand", format!("Man::render panicked for a command whose last subcommand was added after build(): {} at {}", p.msg, p.loc));
                     return;
+                }
+            }
+        }
+    }
+
+    // ---- the page of the auto-generated `help` subcommand (a copy of the tree): hidden subcommands stay out
+    if g == Gen::Man && man_names.is_empty() && !sc.spec.subs.is_empty() && !sc.spec.has(CmdSetting::DisableHelpSubcommand) && !sc.spec.subs.iter().any(|s| s.name == "help") {
+        let page = catch(|| {
+            let mut root = build_cmd(&sc.spec);
+            root.build();
+            root.find_subcommand("help").cloned().map(|h| {
+                let mut v = Vec::new();
+                let _ = new_man(h).render(&mut v);
+                String::from_utf8_lossy(&v).to_string()
+            })
+        });
+        out.steps += 1;
+        match page {
+            Err(p) => {
+                out.violate("generate-panic", "man/help-subcommand-page", format!("rendering the page of the generated `help` subcommand panicked: {} at {}", p.msg, p.loc));
+                return;
+            }
+            Ok(None) => {}
+            Ok(Some(text)) => {
+                out.comparisons += 1;
+                out.count("op.man_page_of_help_subcommand");
+                let plain = roff_unescape(&text);
+                for s in &sc.spec.subs {
+                    let tag = format!("-{}(", s.name);
+                    let listed = plain.lines().any(|l| l.ends_with(')') && l.rfind(&tag).map(|i| !l[i + tag.len()..l.len() - 1].contains(['(', ' '])).unwrap_or(false));
+                    if s.has(CmdSetting::Hide) && listed {
+                        out.violate("hidden-shown", "help-subcommand-page".to_string(), format!("the man page of the generated `help` subcommand lists the hidden subcommand {}\n{}", s.name, crate::cmdsim::safe_slice(&text, 0, 1200)));
+                        return;
+                    }
+                    if !s.has(CmdSetting::Hide) && !listed {
+                        out.violate("visible-missing", "help-subcommand-page".to_string(), format!("the man page of the generated `help` subcommand does not list the subcommand {}\n{}", s.name, crate::cmdsim::safe_slice(&text, 0, 1200)));
+                        return;
+                    }
                 }
             }
         }
